@@ -97,6 +97,7 @@ func gen(seed int64, tier, mode string) Scenario {
 	sc.Proto = []string{"coop", "coop", "range", "848"}[r.Intn(4)]
 	sc.Steps = append(sc.Steps, Step{Op: "produce_in", N: 6 + r.Intn(8)}, Step{Op: "join", M: 1})
 	live := map[int]bool{1: true}
+	droppedEOS := map[string]bool{}
 	n := 5 + r.Intn(7)
 	for i := 0; i < n; i++ {
 		switch x := r.Intn(10); {
@@ -118,6 +119,12 @@ func gen(seed int64, tier, mode string) Scenario {
 			sc.Steps = append(sc.Steps, Step{Op: "produce_in", N: 2 + r.Intn(8)})
 		case x < 7:
 			f := fault([]string{"produce", "endtxn", "txnoffsetcommit", "addoffsets"})
+			if f.Kind == "dropresp" {
+				if droppedEOS[f.Key] {
+					continue // single-loss fault model: one lost acknowledgement per request kind per pipeline
+				}
+				droppedEOS[f.Key] = true
+			}
 			sc.Steps = append(sc.Steps, Step{Op: "fault", F: &f})
 		default:
 			sc.Steps = append(sc.Steps, Step{Op: "sleep", Ms: 50 + r.Intn(1500)})
